@@ -57,6 +57,7 @@ type scenario struct {
 type ev struct {
 	Kind    string
 	Attempt int
+	Round   int // "enter": Retries() as the attempt saw it on entry (the retry round it belongs to)
 }
 
 type trialOut struct {
@@ -87,7 +88,7 @@ func run(sc scenario) (out trialOut) {
 	var log []ev
 	add := func(k string, n int) {
 		mu.Lock()
-		log = append(log, ev{k, n})
+		log = append(log, ev{Kind: k, Attempt: n})
 		mu.Unlock()
 	}
 
@@ -197,6 +198,10 @@ func run(sc scenario) (out trialOut) {
 		pols = []failsafe.Policy[int]{rl, retry()}
 	case "timeout-never(retry)":
 		pols = []failsafe.Policy[int]{timeout.With[int](time.Hour), retry()}
+	case "retry(hedge)":
+		// every try is hedged after 10 us while attempts last about 30 us: each round has a winner and losers the hedge
+		// policy cancels, while the retry policy keeps starting new rounds
+		pols = []failsafe.Policy[int]{retry(), hedgepolicy.BuilderWithDelay[int](10 * time.Microsecond).WithMaxHedges(1).Build()}
 	case "hedge":
 		pols = []failsafe.Policy[int]{hedgepolicy.BuilderWithDelay[int](time.Hour).WithMaxHedges(2).Build()}
 	case "hedge-custom":
@@ -224,7 +229,9 @@ func run(sc scenario) (out trialOut) {
 	var firstExec atomic.Pointer[failsafe.Execution[int]]
 	fn := func(exec failsafe.Execution[int]) (int, error) {
 		n := int(invocations.Add(1))
-		add("enter", n)
+		mu.Lock()
+		log = append(log, ev{Kind: "enter", Attempt: n, Round: exec.Retries()})
+		mu.Unlock()
 		if n == 1 {
 			firstExec.Store(&exec)
 			if sc.Source == "timeout" || sc.Source == "ctx-deadline" {
@@ -236,6 +243,12 @@ func run(sc scenario) (out trialOut) {
 		}
 		if sc.Point == "in-attempt" && n == sc.K {
 			fire()
+		}
+		if sc.Shape == "retry(hedge)" {
+			select {
+			case <-exec.Canceled():
+			case <-time.After(30 * time.Microsecond):
+			}
 		}
 		if (sc.BlockAtK && n == sc.K) || isHedgeShape && sc.SucceedAt == 0 {
 			select {
@@ -329,6 +342,7 @@ func run(sc scenario) (out trialOut) {
 	// ---- judge ----
 	cancelIdx, returnIdx, firstEnter := -1, -1, -1
 	entersAfterCancel, fallbackAfterCancel := 0, 0
+	lastRoundBeforeCancel, lastRoundAfterCancel := 0, 0
 	exits, scheduled := 0, 0
 	exitsBeforeCancel, scheduledBeforeCancel := 0, 0
 	for i, e := range l {
@@ -345,6 +359,11 @@ func run(sc scenario) (out trialOut) {
 			}
 			if cancelIdx != -1 && returnIdx == -1 {
 				entersAfterCancel++
+				if e.Round > lastRoundAfterCancel {
+					lastRoundAfterCancel = e.Round
+				}
+			} else if cancelIdx == -1 && e.Round > lastRoundBeforeCancel {
+				lastRoundBeforeCancel = e.Round
 			}
 		case "exit":
 			if returnIdx == -1 {
@@ -426,7 +445,15 @@ func run(sc scenario) (out trialOut) {
 			return fail("fallback-after-cancel", "the fallback inside the retry policy was invoked %d times after the cancellation took effect (one attempt may already have been in flight)", fallbackAfterCancel)
 		}
 	}
-	if cancelledBeforeReturn && entersAfterCancel > 1 {
+	if sc.Shape == "retry(hedge)" {
+		// hedged rounds: attempts the hedge policy had launched before the cancellation may reach the function after it
+		// (and stragglers of older rounds too), so entries cannot be counted. Rounds can: if R is the last retry round seen
+		// in the function before the cancellation, round R+1 may already have been started, one further round (R+2) is
+		// what the statement allows, round R+3 is not
+		if cancelledBeforeReturn && lastRoundAfterCancel > lastRoundBeforeCancel+2 {
+			return fail("attempts-after-cancel", "an attempt of retry round %d entered the function after the cancellation had taken effect; the last round seen before it was %d", lastRoundAfterCancel, lastRoundBeforeCancel)
+		}
+	} else if cancelledBeforeReturn && entersAfterCancel > 1 {
 		return fail("attempts-after-cancel", "%d attempts entered the function after the cancellation had taken effect (at most one may)", entersAfterCancel)
 	}
 	if sc.Source == "timeout" && isSource {
@@ -595,7 +622,7 @@ func TestCancelRaceSpin(t *testing.T) {
 	per := 2000
 	rapid.Check(t, func(t *rapid.T) {
 		src := rapid.SampledFrom([]string{"result-cancel", "result-cancel", "ctx-cancel"}).Draw(t, "source")
-		shape := rapid.SampledFrom([]string{"retry", "fallback(retry)", "retry(breaker)", "hedge(retry)", "timeout-never(retry)"}).Draw(t, "shape")
+		shape := rapid.SampledFrom([]string{"retry", "fallback(retry)", "retry(breaker)", "hedge(retry)", "timeout-never(retry)", "retry(hedge)", "retry(hedge)"}).Draw(t, "shape")
 		maxSpin := rapid.SampledFrom([]int{2000, 20000, 100000}).Draw(t, "maxSpinNs")
 		seed := rapid.Uint64().Draw(t, "spinSeed")
 		var wg sync.WaitGroup
